@@ -81,3 +81,12 @@ package types
 //@   inline
 //@   invariant #1 idx: rangeindex >= 0 - 1 && rangeindex < len(rs)
 //@ end
+
+// A-COINS: list view and array view of a valid Coins value agree (every listed coin is positive and filed once; every
+// positive amount is listed): cidx(c, d) is the position of denomination d.
+//@ define cidx(c, d) = uf("coins_index", c, d)
+//@ axiom coinsListI(c, i)
+//@   ensures 0 <= i && i < len(c) ==> amt(c, coinat(c, i).Denom) > 0 && cidx(c, coinat(c, i).Denom) == i
+//@ axiom coinsListD(c, d)
+//@   ensures amt(c, d) > 0 ==> 0 <= cidx(c, d) && cidx(c, d) < len(c) && coinat(c, cidx(c, d)).Denom == d
+//@   ensures amt(c, d) >= 0
